@@ -1,6 +1,6 @@
 #!/bin/bash
 # MANIFEST.setup_cmd: build, offline and from files on disk only, the Coq closure of every claimed property
-# (coq/Cxx/Property.vo and coq/Cxx/Run.vo for each check listed in MANIFEST.json).
+# (every module of coq/Cxx/ for each check listed in MANIFEST.json, and of coq/Lib/).
 set -eu
 HERE="$(cd "$(dirname "$0")" && pwd)"
 cd "$HERE"
@@ -20,9 +20,8 @@ if bad:
 common.regen_coqproject()
 t = []
 for p in pids:
-    t.append(f"{p}/Property.vo")
-    if os.path.exists(f"coq/{p}/Run.v"):
-        t.append(f"{p}/Run.vo")
+    t += common.pid_targets(p)
+t += [f"Lib/{f}o" for f in sorted(os.listdir("coq/Lib")) if f.endswith(".v") and not f.startswith(".")]
 print(" ".join(t))
 PY
 )
